@@ -495,6 +495,24 @@ def temporary_overrides_restored(prog, res):
     res.need(R, 2)
 
 
+def postponed_frame_is_started(prog, res):
+    """T3: with a stable input buffer, a call can accept input for a frame whose initialisation it postpones: the stage stays
+    zcss_init and stableIn_notConsumed holds the byte count.  For the parameter setters that frame has started: they write
+    requestedParams only on the edge where stableIn_notConsumed is zero (or for a parameter that may change mid-frame)."""
+    R = "T3.stage-gate"
+    for name in ("ZSTD_CCtx_setParameter", "ZSTD_CCtx_setParametersUsingCCtxParams"):
+        f = prog.fn(name)
+        pend = lambda a: any(y.get("k") == "mem" and y.get("f") == "stableIn_notConsumed" for y in f.walk_resolved(a))
+        none = guards.rel_edges(f, pend, "!=", lambda b_: const_val(strip_casts(b_)) == 0, truth=False) + \
+            guards.truthy_edges(f, lambda c: c.get("k") == "mem" and c.get("f") == "stableIn_notConsumed", truth=False)
+        auth = cond_edges(f, lambda c: is_call(c, "ZSTD_isUpdateAuthorized"), "true")
+        wr = f.call_roots("ZSTD_CCtxParams_setParameter") + f.find_roots(lambda x: x.get("k") == "asg" and strip_casts(x["lhs"]).get("k") == "mem" and strip_casts(x["lhs"]).get("f") == "requestedParams")
+        res.check(bool(none) and bool(wr) and f.must_pass(via_edges=none + auth, targets=wr), R, name + ":postponed-frame-counts-as-started", f.loc,
+                  "requestedParams is written only when no stable input is pending for a postponed frame (or the parameter may change mid-frame)",
+                  "%s writes the requested parameters although stable input was already accepted for the frame (stableIn_notConsumed != 0, stage still zcss_init): "
+                  "switching ZSTD_c_stableInBuffer off there drops the bytes already reported consumed from the frame" % name)
+
+
 def run(tier):
     res = Result("C16", tier)
     tus, info = extract(["compress", "decompress"])
@@ -547,6 +565,7 @@ def run(tier):
     _guards.check_inventory(prog, res, 'T8.frozen-guards(parameter,stage)', _inv)
     res.need('T8.frozen-guards(parameter,stage)', 50)
     temporary_overrides_restored(prog, res)
+    postponed_frame_is_started(prog, res)
     return res.finish(
         explanation="The parameter table decided cell by cell from the AST/CFG: every ZSTD_cParameter/ZSTD_dParameter "
                     "value has a case in bounds/set/get (and isUpdateAuthorized); every store of a setter case is "
